@@ -837,6 +837,49 @@ func genTransferTokens(repo string) (string, error) {
 		ok = false
 	}
 	fmt.Fprintf(&b, "Definition transfer_buffer_has_room : bool := %v.\n", hasRoom)
+	// handler.go activeListener.OnAccept: for a handed-over connection (ch != nil) the accept buffer is published
+	// unconditionally - `variable.Set(ctx, types.VariableAcceptBuffer, buf)` is a statement of the `if ch != nil` block itself
+	published, seenCh := false, false
+	if _, hf, err := ParseGoFile(repo, "pkg/server/handler.go"); err == nil {
+		if fd := FindFunc(hf, "activeListener", "OnAccept"); fd != nil {
+			ast.Inspect(fd.Body, func(n ast.Node) bool {
+				is, isi := n.(*ast.IfStmt)
+				if !isi || exprFull(is.Cond) != "ch != nil" {
+					return true
+				}
+				hasChan := false
+				pub := false
+				for _, st := range is.Body.List {
+					var call *ast.CallExpr
+					switch x := st.(type) {
+					case *ast.AssignStmt:
+						if len(x.Rhs) == 1 {
+							call, _ = x.Rhs[0].(*ast.CallExpr)
+						}
+					case *ast.ExprStmt:
+						call, _ = x.X.(*ast.CallExpr)
+					}
+					if call == nil || exprFull(call.Fun) != "variable.Set" || len(call.Args) != 3 {
+						continue
+					}
+					switch exprFull(call.Args[1]) {
+					case "types.VariableAcceptChan":
+						hasChan = true
+					case "types.VariableAcceptBuffer":
+						pub = exprFull(call.Args[2]) == "buf"
+					}
+				}
+				if hasChan {
+					seenCh, published = true, pub
+				}
+				return true
+			})
+		}
+	}
+	if !seenCh {
+		ok = false
+	}
+	fmt.Fprintf(&b, "Definition transfer_buffer_always_published : bool := %v.\n", published)
 	// connection.transfer(): notifyTransfer() (takes the write lock, waits for a write in progress) must come before
 	// transferRead() (sends the socket to the new process)
 	lockFirst, seenBoth := false, false
